@@ -38,7 +38,8 @@ THEOREMS = [
     "SleapVerif.C03.score_true_edge_eq",
     "SleapVerif.C03.decode_within_half_cell",
     "SleapVerif.C03.accepted_eq_true",
-    "SleapVerif.C03.weak_separation_counterexample",
+    "SleapVerif.C03.forced_assignment_counterexample",
+    "SleapVerif.C03.fixed_separated_of_thresholds",
     "SleapVerif.C03.assign_eq_components",
     "SleapVerif.C03.reassembly_exact",
     "SleapVerif.C03.keepTop_all",
@@ -388,16 +389,20 @@ def measure_H(sc, b, peaks_img, ch, edge_inds, edge_peak_inds, scores):
         worst = max(worst, abs(peaks_img[c[0]][0] - float(p[0])) / cs, abs(peaks_img[c[0]][1] - float(p[1])) / cs)
     if len(taken) != len(ch):
         h1_ok = False
-    h2 = {"true_min": None, "false_max": None, "dom": None, "exch": None}
+    h2 = {"true_min": None, "false_max": None, "orphan_max": None, "dom": None, "exch": None}
     if not h1_ok:
         return h1_ok, worst, False, h2, owner
-    true_s, false_s, dom, exch = [], [], [], []
+    true_s, false_s, orphan_s, dom, exch = [], [], [], [], []
     for e in range(len(sc["edges"])):
         idx = [i for i in range(len(edge_inds)) if edge_inds[i] == e]
         S = {(edge_peak_inds[i][0], edge_peak_inds[i][1]): scores[i] for i in idx}
         is_true = {k: owner[k[0]][0] == owner[k[1]][0] for k in S}
+        rows_with_true = {k[0] for k in S if is_true[k]}
+        cols_with_true = {k[1] for k in S if is_true[k]}
         for k, v in S.items():
             (true_s if is_true[k] else false_s).append(v)
+            if k[0] not in rows_with_true and k[1] not in cols_with_true:
+                orphan_s.append(v)
         for (i, j), t in S.items():
             if not is_true[(i, j)]:
                 continue
@@ -410,11 +415,43 @@ def measure_H(sc, b, peaks_img, ch, edge_inds, edge_peak_inds, scores):
                     exch.append(t + v - S[(i, j2)] - S[(i2, j)])
     h2["true_min"] = min(true_s) if true_s else None
     h2["false_max"] = max(false_s) if false_s else None
+    h2["orphan_max"] = max(orphan_s) if orphan_s else None
     h2["dom"] = min(dom) if dom else None
     h2["exch"] = min(exch) if exch else None
-    ok = ((not true_s or min(true_s) >= sc["min_line"]) and (not false_s or max(false_s) < sc["min_line"])
+    ok = ((not true_s or min(true_s) >= sc["min_line"]) and (not orphan_s or max(orphan_s) < sc["min_line"])
           and (not dom or min(dom) > 0) and (not exch or min(exch) > 0))
     return h1_ok, worst, ok, h2, owner
+
+
+def root_first(sc, b, chs, owner, conns):
+    """hypothesis `RootFirst` of assign_eq_components on the model's connection list, with the
+    component labelling taken from the labels (animal, visible-edge component)"""
+    comp_of = {}
+    for a, an in enumerate(sc["frames"][b]):
+        parent = {k: k for k, p in enumerate(an) if p is not None}
+
+        def find(x):
+            while parent[x] != x:
+                x = parent[x]
+            return x
+        for (u, v) in sc["edges"]:
+            if an[u] is not None and an[v] is not None:
+                parent[find(u)] = find(v)
+        for k in parent:
+            comp_of[(a, k)] = (a, find(k))
+    per_node = {}
+    for i, c in enumerate(chs):
+        per_node.setdefault(c, []).append(i)
+
+    def comp(pk):
+        return comp_of[owner[per_node[pk[0]][pk[1]]]]
+    seen, started = set(), set()
+    for (s, d) in conns:
+        if comp(s) != comp(d) or d in seen or (comp(s) in started and s not in seen):
+            return False
+        seen.update([s, d])
+        started.add(comp(s))
+    return True
 
 
 # ------------------------------------------------------------------ one scene through both sides
@@ -454,6 +491,9 @@ def parse_model(line, nT, n_nodes):
         cands[i]["rsubs"] = [(int(blk[1 + 2 * k]), int(blk[2 + 2 * k])) for k in range(nT)]
     out["cands"] = cands
     if out["status"] == "ok":
+        t = out["conn"]
+        out["conns"] = [((int(t[1 + 5 * i]), int(t[2 + 5 * i])), (int(t[3 + 5 * i]), int(t[4 + 5 * i])))
+                        for i in range(int(t[0]))]
         t = out["inst"]
         ni = int(t[0])
         rows, scores = [], []
@@ -619,7 +659,11 @@ def compare_phase(chk, c, model, tag, stats, do_case=True):
                     bad = True
         # -- (4) measured hypotheses of reassembly_exact
         peaks_img = [(p[0] * sc["cs"], p[1] * sc["cs"]) for p in peaks_b]
-        h1, h1m, h2, h2d, _ = measure_H(sc, b, peaks_img, [p[3] for p in peaks_b], ei, epi, ls)
+        chs = [p[3] for p in peaks_b]
+        h1, h1m, h2, h2d, owner = measure_H(sc, b, peaks_img, chs, ei, epi, ls)
+        if h1 and m["status"] == "ok":
+            stats["RootFirst"] += root_first(sc, b, chs, owner, m["conns"])
+            stats["RootFirst_of"] += 1
         stats["scenes"] += 1
         stats["H1"] += h1
         stats["H2"] += h2
@@ -627,8 +671,9 @@ def compare_phase(chk, c, model, tag, stats, do_case=True):
         for k in ("true_min", "dom", "exch"):
             if h2d[k] is not None:
                 stats[k] = h2d[k] if stats[k] is None else min(stats[k], h2d[k])
-        if h2d["false_max"] is not None:
-            stats["false_max"] = h2d["false_max"] if stats["false_max"] is None else max(stats["false_max"], h2d["false_max"])
+        for k in ("false_max", "orphan_max"):
+            if h2d[k] is not None:
+                stats[k] = h2d[k] if stats[k] is None else max(stats[k], h2d[k])
         # -- (5) the property itself on the implementation output
         why = oracle(sc, b, pred)
         if why:
@@ -668,13 +713,64 @@ def fails_only(sc, stats):
 
 
 def signatures(sc, b):
+    """structural predicates of a (shrunk) failing case, matched against known findings"""
     sigs = []
     cs = sc["cs"]
     for an in sc["frames"][b]:
         for p in an:
             if p is not None and ((p[0] / cs) % 1 == Fraction(1, 2) or (p[1] / cs) % 1 == Fraction(1, 2)):
                 sigs.append("tied_confmap_cells")
+    # F-C03: the peak stage is fine (H1), thresholds and shared-peak dominance hold, but some true
+    # candidate loses a 2-exchange against a pair of candidates that will be rejected anyway
+    try:
+        res, rec = run_impl(sc)
+        if res[0] == "ok":
+            out = res[1]
+            g, vals, sinds, chans = rec.peaks
+            sel = (sinds == b).nonzero(as_tuple=True)[0].tolist()
+            peaks_img = [(float(g[i][0]) * cs, float(g[i][1]) * cs) for i in sel]
+            chs = [int(chans[i]) for i in sel]
+            h1, _, _, h2d, _ = measure_H(sc, b, peaks_img, chs, out["edge_inds"][b].tolist(),
+                                         out["edge_peak_inds"][b].tolist(), out["line_scores"][b].tolist())
+            if (h1 and h2d["exch"] is not None and h2d["exch"] <= 0
+                    and (h2d["true_min"] is None or h2d["true_min"] >= sc["min_line"])
+                    and (h2d["orphan_max"] is None or h2d["orphan_max"] < sc["min_line"])
+                    and (h2d["dom"] is None or h2d["dom"] > 0)):
+                sigs.append("exchange_margin_nonpositive")
+    except Exception:
+        pass
     return sorted(set(sigs))
+
+
+def gen_forced_family(rng):
+    """Region excluded by the exchange clause of `Separated` (F-C03): a long animal A with an orphan
+    source peak (animal B, destination invisible) beside A's destination end and an orphan
+    destination peak (animal C, source invisible) beside A's source end."""
+    cs, ps = rng.choice([(2, 4), (2, 2), (4, 4)])
+    size = rng.choice([192, 224, 256])
+    L = rng.uniform(0.55, 0.68) * size
+    th = rng.uniform(0, 2 * math.pi)
+    cx, cy = size / 2, size / 2
+    ux, uy = math.cos(th), math.sin(th)
+    off = rng.uniform(20, 28)
+    side = rng.choice([1, -1])
+
+    def q(x, y):
+        fx, fy = Fraction(round(x * 4), 4), Fraction(round(y * 4), 4)
+        if (fx / cs) % 1 == Fraction(1, 2):
+            fx += Fraction(1, 4)
+        if (fy / cs) % 1 == Fraction(1, 2):
+            fy += Fraction(1, 4)
+        return (fx, fy)
+    a_s = (cx - ux * L / 2, cy - uy * L / 2)
+    a_d = (cx + ux * L / 2, cy + uy * L / 2)
+    b_s = (a_d[0] - uy * off * side, a_d[1] + ux * off * side)
+    c_d = (a_s[0] + uy * off * side, a_s[1] - ux * off * side)
+    D = 0.7072 * (ps + cs)
+    return {"cs": cs, "ps": ps, "n_nodes": 2, "edges": [(0, 1)], "Hin": size, "Win": size, "sigma_c": 1.5,
+            "sigma_p": 1.4 * D * D, "frames": [[[q(*a_s), q(*a_d)], [q(*b_s), None], [None, q(*c_d)]]],
+            "scale": 1.0, "effs": [1.0], "refinement": rng.choice([None, "integral"]), "patch": 5, "n_points": 10,
+            "ratio": 0.25, "weight": 1.0, "min_line": 0.25, "min_peaks": 0, "threshold": 0.2}
 
 
 # ------------------------------------------------------------------ unit level: make_line_subs
@@ -805,13 +901,18 @@ def keeptop_cases(chk, n):
 
 # ------------------------------------------------------------------ main
 def new_stats():
-    return {"scenes": 0, "H1": 0, "H2": 0, "h1_worst_cells": 0.0, "true_min": None, "false_max": None,
+    return {"scenes": 0, "H1": 0, "H2": 0, "RootFirst": 0, "RootFirst_of": 0, "orphan_max": None,
+            "h1_worst_cells": 0.0, "true_min": None, "false_max": None,
             "dom": None, "exch": None, "score_err": 0.0, "oracle_fail_H": []}
 
 
 def handle_failures(chk, sc, failures, stats, tag):
     for (b, why) in failures[:1]:
         small, sb = shrink(chk, sc, b, stats)
+        if small is not sc:
+            res, _ = run_impl(small)
+            why = (f"forward raised {res[1]}" if res[0] == "raise"
+                   else oracle(small, sb, canon_pred(res[1]["pred_instance_peaks"][sb])) or why)
         chk.fail(f"C03 fails on BottomUpInferenceModel.forward ({tag}): {why}",
                  {"scene": frac_json(small), "sample": sb}, why, signatures(small, sb))
 
@@ -835,7 +936,7 @@ def main(chk: Check):
     handle_failures(chk, fixed, process_scene(chk, fixed, "fixed", stats), stats, "fixed")
     writer_layout_case(chk, fixed)
 
-    n_scenes = chk.n(90, 1500)
+    n_scenes = chk.n(90, 900)
     done = 0
     while done < n_scenes and len(chk.disagreements) <= 8 and len(chk.failing) <= 8:
         chunk = []
@@ -866,13 +967,37 @@ def main(chk: Check):
                 handle_failures(chk, sc, bad, stats, "search")
                 break
 
+    # known finding F-C03: replay the witness, then sample the region the exchange clause excludes
+    wit = next((f for f in chk.known if f["id"] == "F-C03"), None)
+    if wit is not None:
+        wsc = unfrac_json(wit["witness"])
+        res, _ = run_impl(wsc)
+        why = "raised" if res[0] == "raise" else oracle(wsc, 0, canon_pred(res[1]["pred_instance_peaks"][0]))
+        chk.known_replay("F-C03", still_fails=bool(why), detail=str(why))
+    excl_fail = 0
+    n_excl = chk.n(12, 120)
+    for _ in range(n_excl):
+        sc = gen_forced_family(rng)
+        res, _ = run_impl(sc)
+        chk.tag("excluded_region_scene")
+        why = f"forward raised {res[1]}" if res[0] == "raise" else oracle(sc, 0, canon_pred(res[1]["pred_instance_peaks"][0]))
+        if why:
+            excl_fail += 1
+            if excl_fail <= 2:
+                chk.fail(f"C03 fails on BottomUpInferenceModel.forward (excluded region: orphan pair vs long animal): {why}",
+                         {"scene": frac_json(sc), "sample": 0}, why, signatures(sc, 0))
+    chk.extra["excluded_region_cases"] = {"scenes": n_excl, "oracle_failures": excl_fail,
+                                          "note": "search, not proof coverage: scenes violating the exchange clause of Separated"}
+
     subs_cases(chk, chk.n(150, 2000))
     keeptop_cases(chk, chk.n(40, 400))
 
     chk.extra["measured_hypotheses"] = {
         "samples": stats["scenes"], "H1_held": stats["H1"], "H2_held": stats["H2"],
         "H1_worst_offset_in_cms_cells": stats["h1_worst_cells"],
+        "RootFirst_held": f'{stats["RootFirst"]}/{stats["RootFirst_of"]}',
         "H2_min_true_score": stats["true_min"], "H2_max_false_score": stats["false_max"],
+        "H2_max_orphan_pair_score": stats["orphan_max"],
         "H2_min_shared_peak_dominance": stats["dom"], "H2_min_exchange_margin": stats["exch"],
         "max_line_score_error": stats["score_err"],
         "oracle_failures_with_hypotheses": stats["oracle_fail_H"][:10],
